@@ -27,6 +27,21 @@ def gen_events(rec, r, n, wd, rep):
         auth = L.proj_file(f)
         L.rec_read(rec, text, key, True, disk, wd, auth=auth)
         L.rec_read(rec, text, key, False, not disk, wd, auth=auth)
+        if j % 4 == 1:
+            # the same object edited and written again (and read back): nothing may survive from the first serialisation
+            try:
+                edit = r.choice(["append", "tag", "delete"])
+                if edit == "append" or not f.components:
+                    f.components.append(L.gen_plain_comp(r))
+                elif edit == "tag":
+                    f.components[0].description[r.randrange(0x20, 0x60)] = b"x"
+                else:
+                    del f.components[r.randrange(len(f.components))]
+                f.comments["edited"] = "yes"
+                text = L.rec_write(rec, f, key, False, wd)
+                L.rec_read(rec, text, key, True, False, wd, auth=L.proj_file(f))
+            except OverflowError:
+                skipped += 1
     return skipped
 
 
